@@ -2,4 +2,5 @@
 from ..core_check import make
 
 run, replay = make("C06", ["C06_quick.cfg", "C06x_quick.cfg", "C06pg_quick.cfg", "C05blk_quick.cfg"], ["C06_thorough.cfg", "C06x_thorough.cfg", ("Sim_remove.cfg", {"num": 150, "depth": 30})],
-                   "explicit identifiers colliding with live entities of any kind, re-creation after removal, copies; refusals must leave live tree, registries and file unchanged; copies get fresh identifiers", neg=None)
+                   "explicit identifiers colliding with live entities of any kind, re-creation after removal, copies; refusals must leave live tree, registries and file unchanged; copies get fresh identifiers", neg=None,
+                   concat=[("DrillholeConcatExportFlags.cfg", 21, None)])
